@@ -4,6 +4,7 @@
 // documented failure value.
 #include "vlib.h"
 #include "vkeys.h"
+#include "vops.h"
 #include <execinfo.h>
 #include <sys/wait.h>
 #include <functional>
@@ -77,7 +78,7 @@ static int scen_cb(jwt_t *jwt, jwt_config_t *) {
 
 // ------------------------------------------------------------------ scenarios
 struct Scen { std::string name; std::function<void()> run; };
-static std::vector<Scen> SC;
+static std::vector<Scen> SC; static uint64_t G_SEED = 1;
 
 static std::string jwk_for(const char *key, bool priv, const char *alg, const char *kid = "k1") { JwkOpts o; o.priv = priv; o.alg = alg ? alg : ""; o.kid = kid ? kid : ""; return jwk_json(POOL().get(key), o); }
 
@@ -164,6 +165,29 @@ static void scen_load(int prov, const char *key, bool priv, const char *alg, int
   if (it && !jwks_item_error(it) && jwks_item_pem(it)) T->step("pem", true, std::to_string(strlen(jwks_item_pem(it)) > 0));
 }
 
+// random builder histories (the C10 operation alphabet) under fault injection: the seed picks the histories
+static std::string norm_token_any(const char *tok) {
+  if (!tok) return "NULL";
+  std::string t(tok); TokParts tp = split_token(t); std::string an; bool ha = header_alg(tp, an); const AlgInfo *ai = ha ? alg_by_name(an) : nullptr;
+  if (!ai || !(ai->kind == K_EC || ai->pss)) return t;
+  bool valid = false; for (auto &e : vo::keytab()) if (e.k->kind == ai->kind && ref_valid(*e.k, t)) valid = true;
+  return tp.signing_input + ".<" + (valid ? "valid-signature" : "INVALID-SIGNATURE") + ">";
+}
+static void scen_history(int prov, std::vector<vo::BOp> ops) {
+  set_provider(prov); set_now(1700000000);
+  vo::BExec *x = nullptr; libv([&] { x = new vo::BExec(); });
+  struct Guard { vo::BExec *&x; ~Guard() { if (x) libv([&] { delete x; x = nullptr; }); } } g{x};
+  T->step("builder_new", x->b != nullptr, "");
+  if (!x->b) return;
+  int i = 0;
+  for (auto &o : ops) {
+    vo::BResult r; libv([&] { r = vo::apply(*x, o); });
+    std::string label = std::string(vo::BN[o.k % vo::B_N]) + "#" + std::to_string(i++);
+    if (r.is_gen) { std::string nt = r.null ? "NULL" : norm_token_any(r.token.c_str()); T->step(label, !r.null, nt); libv([&] { jwt_builder_error_clear(x->b); }); }
+    else { int k = o.k % vo::B_N; bool setter = k == vo::B_HSET || k == vo::B_CSET; T->step(label, setter ? (r.code == 0 || r.code == JWT_VALUE_ERR_EXIST) : true, std::to_string(r.code)); }
+  }
+}
+
 static void build_scenarios(bool thorough) {
   struct KA { const char *key; const char *attr; jwt_alg_t expl; };
   const KA kas[] = {{nullptr, nullptr, JWT_ALG_NONE}, {"oct64", nullptr, JWT_ALG_HS256}, {"oct64", "HS512", JWT_ALG_NONE}, {"ec_p256", "ES256", JWT_ALG_NONE}, {"rsa_2048", nullptr, JWT_ALG_RS256}, {"rsa_2048", "PS256", JWT_ALG_NONE}, {"ed25519", nullptr, JWT_ALG_EDDSA}, {"ec_p521", nullptr, JWT_ALG_ES512}, {"ed448", "EdDSA", JWT_ALG_EDDSA}, {"ec_p384", nullptr, JWT_ALG_ES384}};
@@ -181,6 +205,13 @@ static void build_scenarios(bool thorough) {
       SC.push_back({nm, [=] { scen_checker(prov, k.key, k.attr, k.expl, cb, tk); }});
     }
     SC.push_back({std::string("keyring/") + prov_name(prov), [=] { scen_keyring(prov); }});
+    { int nh = thorough ? 40 : 5;
+      for (int h = 0; h < nh; h++) { Rng rng(G_SEED * 1009 + h * 2 + prov); std::vector<vo::BOp> ops; int len = 5 + (int)rng.below(9);
+        static const int W[] = {vo::B_HSET, vo::B_HSET, vo::B_HDEL, vo::B_CSET, vo::B_CSET, vo::B_CSET, vo::B_CDEL, vo::B_IAT, vo::B_OFFSET, vo::B_OFFSET, vo::B_SETKEY, vo::B_SETKEY, vo::B_SETKEY, vo::B_SETCB, vo::B_SETCB, vo::B_GEN, vo::B_GEN, vo::B_GEN};
+        for (int i = 0; i < len; i++) { vo::BOp o; o.k = W[rng.below(18)]; o.a = (int)rng.below(4096); o.b = (int)rng.below(4096); o.c = (int)rng.below(4); ops.push_back(o); }
+        vo::BOp g; g.k = vo::B_GEN; ops.push_back(g);
+        std::string nm = std::string("history/") + prov_name(prov) + "/seed" + std::to_string(G_SEED) + "-" + std::to_string(h) + ":"; for (auto &o : ops) nm += vo::bop_str(o) + ";";
+        SC.push_back({nm, [=] { scen_history(prov, ops); }}); } }
     const char *lk[] = {"oct64", "rsa_2048", "ec_p256", "ed25519", "ec_k256", "ed448"};
     for (const char *k : lk) for (int priv = 0; priv < 2; priv++) for (int how = 0; how < 3; how++) {
       if (!thorough && (prov == 1 || (how && priv))) continue;
@@ -256,7 +287,7 @@ static std::string judge(const std::vector<std::string> &base, const ChildRes &c
 
 int main(int argc, char **argv) {
   Args a = parse_args(argc, argv);
-  POOLP = new Pool(standard_pool());
+  POOLP = new Pool(standard_pool()); vo::init_keys(false); G_SEED = a.seed;
   jwt_set_alloc(fi_malloc, fi_free);
   build_scenarios(a.thorough());
   Stats &st = stats();
@@ -275,6 +306,7 @@ int main(int argc, char **argv) {
   if (!a.replay.empty()) {
     J j = J::parse(read_file(a.replay)); if (!j) return 2;
     std::string name = json_string_value(json_object_get(j.p, "scenario")); long k = (long)json_integer_value(json_object_get(j.p, "fault_index"));
+    { size_t sp = name.find("/seed"); if (name.rfind("history/", 0) == 0 && sp != std::string::npos) { G_SEED = strtoull(name.c_str() + sp + 5, nullptr, 10); SC.clear(); build_scenarios(true); } }
     if (a.kv.count("all")) {}
     for (size_t si = 0; si < SC.size(); si++) if (SC[si].name == name) { std::vector<std::string> base = run_scen(SC[si], nullptr, nullptr); std::string r = one(si, k, base, false); if (!r.empty()) fprintf(stderr, "replay: %s\n", r.c_str()); return r.empty() ? 0 : 3; }
     // thorough-only scenario replayed in quick mode: build the full catalogue
